@@ -37,6 +37,10 @@ def schedules(tier, rng, op):
     for a, b in (("V:A", "V:A%00v2"), ("V:A%00v2", "V:A"), ("V:A%00", "V:A%00"), ("V:B%00x", "V:B%00y"), ("V:X%00", "V:X"), ("V:nosuch%00q", "V:nosuch%00q")):
         out.append("%s S0:%s R0 S0:%s R0 S1:%s R1 S0:%s R0 S1:%s R1" % (op, a, b, a, b, a))
         out.append("%s S0:%s S1:%s R0 R1 S0:%s R0 S1:%s R1" % (op, a, b, a, b))
+    # the factory is handed exactly the name the caller passed: "file:X" and "X" are two names (two cache entries,
+    # two invocations with two different arguments)
+    for a, b in (("file:V:A", "V:A"), ("V:A", "file:V:A"), ("file:V:B", "file:V:B"), ("file:V:X", "V:X")):
+        out.append("%s S0:%s R0 S0:%s R0 S1:%s R1 S0:%s R0" % (op, a, b, a, b))
     ks = [1, 2, 3] if tier == "quick" else [1, 2, 3, 4]
     for k in ks:
         ords = list(orders(k))
